@@ -14,6 +14,7 @@ class Check(Property):
     ID = "C14"
     PROPS_FILE = "PintModel/Props/C14.lean"
     MODULE = "PintModel.Props.C14"
+    EXTRA_LEAN_FILES = ["PintModel/Proofs/RuleInversion.lean"]
     RULE = ("canonical units x {SI, mks, cgs, atomic, Planck, imperial, US, none}: get_base_units(system=...), "
             "to_base_units after switching the default system, idempotence; every group's and system's members; "
             "compatible units restricted to every group/system for sampled units; edit sequences (new groups, "
